@@ -5,6 +5,7 @@ import MobiusModel.Generated.Consts
 import MobiusModel.TranslatedTies
 import MobiusModel.KickGrace
 import MobiusModel.Generated.Kick
+import MobiusModel.SetUserLogins
 /-!
   C06 — No privilege amplification; protected users cannot be kicked.
 
@@ -275,5 +276,66 @@ example :
 
 example : (KickGrace.kick (KickGrace.run KickGrace.World.init [.login true]) true 1).2 = .protectedT ∧
     (KickGrace.kick (KickGrace.run KickGrace.World.init [.login true]) true 7).2 = .panicked := by decide +kernel
+
+/-! ### wave e — logins are byte-string keys: amplification and protection judged against the STORED account
+
+  `SetUserLogins` (accounts keyed by login bytes, sessions carrying a copy, the single-account editor matching logins
+  byte-wise).  The handlers consult the session's copy; these theorems show that, after any history, that copy is what
+  the account store holds under the session's own login — so the bounds hold relative to the account itself. -/
+section SetUserLoginsC06
+open SetUserLogins
+
+/-- No amplification relative to the creator's STORED account, after any history of creations, logins and set-users
+    (first creation request): whatever comes to exist holds no privilege the creator's account (the key byte-wise equal
+    to the creating session's login) lacks at that moment. -/
+theorem newUser_bounded_by_stored_account (es : List (Ev AccessBitmap)) (s : Sess AccessBitmap)
+    (hs : s ∈ (SetUserLogins.run World.init es).sess) (loginExists : Bool) (field : Bytes) (createFails : Bool)
+    (a : AccessBitmap) (h : newUser s.access loginExists field createFails = .created a) :
+    ∃ st, lookup s.login (SetUserLogins.run World.init es).accts = some st ∧
+      ∀ i, i < 64 → a.isSet i = true → st.isSet i = true :=
+  ⟨s.access, coherent_run es _ coherent_init s hs, newUser_no_amplification s.access loginExists field createFails a h⟩
+
+/-- … second creation request (multi-user editor). -/
+theorem updateUser_bounded_by_stored_account (es : List (Ev AccessBitmap)) (s : Sess AccessBitmap)
+    (hs : s ∈ (SetUserLogins.run World.init es).sess) (field : Bytes) (createFails : Bool)
+    (a : AccessBitmap) (h : updateUserCreate s.access field createFails = .created a) :
+    ∃ st, lookup s.login (SetUserLogins.run World.init es).accts = some st ∧
+      ∀ i, i < 64 → a.isSet i = true → st.isSet i = true :=
+  ⟨s.access, coherent_run es _ coherent_init s hs, updateUser_no_amplification s.access field createFails a h⟩
+
+/-- Protection follows the STORED account of the target: when the account stored under the target session's login is
+    marked cannot-be-disconnected (e.g. by a set-user while it was logged in), a disconnect request against that
+    session is inert — error reply, ban store unchanged, nothing scheduled, no notice — after any history. -/
+theorem protection_follows_stored_account (es : List (Ev AccessBitmap)) (s : Sess AccessBitmap)
+    (hs : s ∈ (SetUserLogins.run World.init es).sess) (st : AccessBitmap)
+    (hst : lookup s.login (SetUserLogins.run World.init es).accts = some st)
+    (hp : st.isSet Priv.cannotBeDiscon = true) (login ip : String) (opt : BanOpt) (bans : List (String × BanKind)) :
+    disconnectTarget s.access login ip opt bans =
+      ⟨.errReply (login ++ " is not allowed to be disconnected."), bans, false, false⟩ := by
+  have := coherent_run es _ coherent_init s hs
+  rw [hst] at this
+  cases this
+  exact protected_target_inert s.access hp login ip opt bans
+
+/-- A set-user that names another spelling (`Bob` for `bob`) cannot open a gap between account and sessions: it is
+    refused and changes neither (so the two theorems above cannot be undermined by it). -/
+theorem set_user_other_spelling_changes_nothing {α : Type} (w : World α) (l : Bytes) (a : α)
+    (h : lookup l w.accts = none) : (setUser w l a).1 = w ∧ (setUser w l a).2 = false := by
+  rw [setUser_refused w l a h]; exact ⟨rfl, rfl⟩
+
+/-- non-vacuity: creator account `bob` holds {14, 2}, a separate account `Bob` holds {14, 2, 40}; `bob` is logged in;
+    set-user `bob` := {14} demotes the session as well — it can no longer create an account holding 2; a set-user naming
+    `BOb` (not a key) is refused. -/
+example :
+    let bob : Bytes := [98, 111, 98]
+    let Bob : Bytes := [66, 111, 98]
+    let BOb : Bytes := [66, 79, 98]
+    let w : World AccessBitmap := SetUserLogins.run World.init
+      [.create bob (ofBits [14, 2]), .create Bob (ofBits [14, 2, 40]), .login 1 bob, .login 2 Bob, .setUser bob (ofBits [14])]
+    (w.sess.map fun s => newUser s.access false [0x20] false) = [.tooMuch, .created (ofBits [2])] ∧
+    (setUser w BOb (ofBits [])).2 = false := by
+  decide
+
+end SetUserLoginsC06
 
 end Mobius.C06
